@@ -1087,6 +1087,8 @@ def _build_joinedstr(
     in_joined_str: bool = False,  # noqa: ARG001
     **kwargs: Any,
 ) -> Expr:
+    # The literal parts of an f-string nested in a formatted value are not themselves formatted values.
+    kwargs.pop("in_formatted_str", None)
     return ExprJoinedStr([_build(value, parent, in_joined_str=True, **kwargs) for value in node.values])
 
 
